@@ -127,6 +127,10 @@ pub fn check(c: &Case) -> Checked {
             Err(BuildError::Panicked(ph, p)) => {
                 let sig = match p.is_verif_tag() {
                     Some("VERIF-STEPS") => format!("hang-step-budget/{ph}/{}", b.name()),
+                    // the message embeds the expression: keep the site, drop the program text
+                    _ if p.msg.starts_with("type inference failed for expr") => {
+                        format!("panic@lib/mimium-lang/src/compiler/mirgen.rs: type inference failed for expr/{ph}/{}", b.name())
+                    }
                     _ => format!("{}/{ph}/{}", p.sig(), b.name()),
                 };
                 res.violations.push((sig, format!("{} @ {}", p.msg, p.loc)));
